@@ -21,6 +21,7 @@ import EinoV.Proofs.C14
 import EinoV.Proofs.C14Sort
 import EinoV.Gen.FactsC14
 import EinoV.Expected.C14
+import EinoV.Proofs.TransC14
 
 namespace EinoV.C14
 open EinoV.Gen
@@ -425,5 +426,75 @@ theorem typed_nested_map_rechunk_breaks_without_kind_test :
       [[("k", .map "string" [("x", .sc "string" "a")])], [("k", .map "string" [("y", .sc "string" "b")])]] with
       | .ok [("k", .map "string" [("x", .sc "string" "a"), ("y", .sc "string" "b")])] => true
       | _ => false) = true := by decide
+
+/-! ### The translated `concatToolCalls` (schema/message.go → Gen/TransC14.lean; gotrans phase 7)
+
+  `concatToolCalls` (with the comparator closure of its final sort) is re-translated from /repo on every run of
+  this property.  `*int` is `Option Int`, the map `m` (index ↦ positions) is a `GoMapK` keyed by `Int`,
+  `strings.Builder` is a String accumulator and `sort.SliceStable` is the prelude's stable sort on the comparator
+  translated from the closure (Model/GoSemTC.lean — trusted statements of library behaviour).  The map is
+  built by the function itself, so the order in which `for k, v := range m` visits it is the external
+  `tcext.rangeOrder` — an arbitrary function; the theorems assume only that it returns a permutation of its
+  argument, and hold for every such function.  They say: the translated function returns exactly the model's
+  code-level `concatTCGo srcCfg ord cs` for a reordering `ord` of the groups that is a permutation, hence
+  (`toolcalls_any_map_order`) the specification `concatTC srcCfg cs`; when the model fails it returns one of the
+  three "cannot concat ToolCalls" errors; it never panics (no index out of range, no nil dereference in the
+  comparator). -/
+section TranslatedToolCalls
+open EinoV.GoSem EinoV.TransC14 EinoV.Gen.TransC14
+variable {V : Type} [Inhabited V]
+
+theorem translated_source_is_current : FactsC14.concatToolCallsTranslated = true := by decide
+
+/-- the three conflict checks and the stable sort are source facts of this run -/
+theorem translated_checks_present : Checks srcCfg ∧ srcCfg.tcSortStable = true :=
+  ⟨⟨by decide, by decide, by decide⟩, by decide⟩
+
+/-- the comparator closure of the final sort is the model's `tcLess` (never a nil dereference) -/
+theorem translated_less_refines (ext : Ext V) (tcext : TCExt) (ex : Nat → GoMap V) (a b : TC) :
+    concatToolCalls__less ext tcext (TransC14.enc ex a) (TransC14.enc ex b) = .ret (tcLess a b) :=
+  less_spec ext tcext ex a b
+
+theorem translated_concatToolCalls_refines (ext : Ext V) (tcext : TCExt) (ex : Nat → GoMap V)
+    (hperm : ∀ m, (tcext.rangeOrder m).Perm m) (cs : List TC) :
+    ∃ ord : List (Int × TC) → List (Int × TC), (∀ l, (ord l).Perm l) ∧
+      match concatTCGo srcCfg ord cs with
+      | .ok out => concatToolCalls ext tcext (cs.map (TransC14.enc ex)) = .ret (out.map (TransC14.enc ex), none)
+      | .error _ => ∃ E, IsConflict E ∧ concatToolCalls ext tcext (cs.map (TransC14.enc ex)) = E :=
+  concatToolCalls_refines ext tcext ex srcCfg translated_checks_present.1 translated_checks_present.2 hperm cs
+
+/-- … hence the specification: whatever order Go visits the map in, the code returns `concatTC` -/
+theorem translated_concatToolCalls_is_spec (ext : Ext V) (tcext : TCExt) (ex : Nat → GoMap V)
+    (hperm : ∀ m, (tcext.rangeOrder m).Perm m) (cs : List TC) :
+    match concatTC srcCfg cs with
+    | .ok out => concatToolCalls ext tcext (cs.map (TransC14.enc ex)) = .ret (out.map (TransC14.enc ex), none)
+    | .error _ => ∃ E, IsConflict E ∧ concatToolCalls ext tcext (cs.map (TransC14.enc ex)) = E :=
+  concatToolCalls_is_spec ext tcext ex srcCfg translated_checks_present.1 translated_checks_present.2 hperm cs
+
+theorem translated_concatToolCalls_total (ext : Ext V) (tcext : TCExt) (ex : Nat → GoMap V)
+    (hperm : ∀ m, (tcext.rangeOrder m).Perm m) (cs : List TC) :
+    ∃ res, concatToolCalls ext tcext (cs.map (TransC14.enc ex)) = .ret res :=
+  concatToolCalls_total ext tcext ex srcCfg translated_checks_present.1 translated_checks_present.2 hperm cs
+
+/-! non-vacuity: fragments of two indexed calls interleaved with a call without an index, the map visited in
+    reverse order — the result is sorted, the arguments are joined per index -/
+def exExtT : Ext Nat := { zeroValue := 0, emptyStream := 0, mergeValues := fun _ => (0, none) }
+def exRev : TCExt := { rangeOrder := fun m => m.reverse }
+def exTC (i : Option Int) (id args : String) : ToolCall Nat :=
+  { Index := i, ID := id, Type_ := "", Function := { Name := "", Arguments := args }, Extra := [] }
+
+example : ∀ m, (exRev.rangeOrder m).Perm m := fun m => List.reverse_perm m
+
+example : (match concatToolCalls exExtT exRev
+      [exTC (some 1) "b" "x", exTC none "n" "q", exTC (some 0) "a" "1", exTC (some 1) "" "y", exTC (some 0) "" "2"] with
+    | .ret r => r.1.map (fun t => (t.Index, t.ID, t.Function.Arguments))
+    | _ => []) = [(none, "n", "q"), (some 0, "a", "12"), (some 1, "b", "xy")] := by decide
+
+/-- two fragments of one index with different ids: the conflict error -/
+example : (match concatToolCalls exExtT exRev [exTC (some 0) "a" "1", exTC (some 0) "b" "2"] with
+    | .ret r => r.2
+    | _ => none) = some (GoErr.mk "cannot concat ToolCalls with different tool id: '%s' '%s'") := by decide
+
+end TranslatedToolCalls
 
 end EinoV.C14
